@@ -8,7 +8,42 @@ TB = ("Lean 4.33.0 kernel (thorough: + leanchecker); axioms ⊆ {propext, Classi
       "hand-written model tied to /repo by regenerated Facts.lean and by the differential correspondence "
       "check (testing); external crates/kernel/fs as listed in DESIGN.md §5")
 
+E2E_TECH = "Lean 4 proof over a hand-written pipeline model + e2e differential correspondence in a netns"
 CLAIMED = {
+    "C03": dict(
+        text="Lean theorems: a non-elevated caller is Forbidden on WireServer/HostGAPlugin for every rule set, mode, default and URL; the "
+             "proxy's own address is always Forbidden; composed with the pipeline such requests are never relayed and get 403. Generated "
+             "endpoint constants are proof obligations. Tied to the real proxy_authorizer::authorize (direct calls) and to the real listener "
+             "(mock WireServer/HostGA stay silent).",
+        design="§7 C03", technique=E2E_TECH),
+    "C05": dict(
+        text="Lean theorems for every client header list (any number of copies of the proxy-owned names, any case): exactly one claims "
+             "header with the attributed elevation, exactly one date header with the proxy clock, and on signed requests exactly the "
+             "proxy's authorization header. Tied to the real listener: raw upstream header lines inspected for spoofed requests.",
+        design="§7 C05", technique=E2E_TECH),
+    "C07": dict(
+        text="Lean theorems about the attribution model (lookup-then-remove at accept, immutable per-connection context): context = own "
+             "record, record consumed, port reuse without a fresh record is unattributed and refused, requests use their own context under "
+             "any interleaving of other connections' events. Tied to the real listener through hook H1: histories with port reuse, "
+             "keep-alive, a later record for a live connection's port, and concurrent accepts.",
+        design="§7 C07", technique=E2E_TECH),
+    "C11": dict(
+        text="Lean theorems: enforce denial = 403 + one record, audit denial = relayed exactly as an allowed request + one record, disabled "
+             "mode never consults the document, summary counts = number of denials per key, order-independent. Tied to the real listener: "
+             "sequences and concurrent bursts of requests, get_all_failed_connection_summary() compared per key.",
+        design="§7 C11", technique=E2E_TECH),
+    "C14": dict(
+        text="Lean theorems: relayed request keeps method/target/body and every client header but the three proxy-owned names; relayed "
+             "response keeps status/body/headers plus exactly one marker; i-th response answers i-th request. Tied to the real listener "
+             "with binary bodies up to the limit, random chunkings, response framings/frame boundaries, concurrent keep-alive and pipelined "
+             "connections. HTTP framing itself is hyper's (partial).",
+        design="§7 C14", technique=E2E_TECH),
+    "C15": dict(
+        text="Lean theorems: generated limits equal 100 KiB / 100 MiB; declared oversize -> 413; any oversize body is never relayed (400 at "
+             "the forwarding stage); a body of at most the limit is relayed intact; the large class applies iff the request is one of the two "
+             "exempt method/URL pairs (case-insensitive). Tied to the real listener around the 100 KiB limit on every run and around 100 MiB "
+             "in the thorough tier.",
+        design="§7 C15", technique=E2E_TECH),
     "C01": dict(
         text="Lean theorems over the model of handle_new_http_request/authorize for every request, identity, destination, "
              "rule set/mode/default and attribution state: relayed => attributed, no '..', rules readable, authorizer not "
@@ -76,6 +111,6 @@ def main():
     json.dump(m, open(os.path.join(VERIF, "MANIFEST.json"), "w"), indent=1)
 
 NA = {}
-HOOK_COMMITS = []
+HOOK_COMMITS = ["e53c7a7", "ad3b7ad", "lints: see git log --grep 'verif hook' in /repo"]
 if __name__ == "__main__":
     main()
